@@ -35,6 +35,34 @@ Tree == \E o \in Ops, a \in Level1, b \in Level1, na \in BOOLEAN, nb \in BOOLEAN
           IN /\ TypeOf(e) # "bad" /\ Eval(e) # Skip
              /\ case = [fam |-> "tree", tree |-> e, want |-> Eval(e), typ |-> TypeOf(e)]
 
+\* ---- short circuit made observable: operands that record their evaluation ----
+T1 == [t |-> "touch", id |-> 1]
+T2 == [t |-> "touch", id |-> 2]
+TX == {B(TRUE), B(FALSE), Fail, T1, T2}
+TL1 == TX \cup {Bin(o, a, b) : o \in {"and", "or"}, a \in TX, b \in TX} \cup {Not(T1), Not(T2)}
+TouchCase == \E o \in {"and", "or", "eq"}, a \in TL1, b \in TL1 :
+               LET e == Bin(o, a, b) IN
+               /\ TypeOf(e) # "bad" /\ Touched(e) \cup Touched(a) \cup Touched(b) # {}
+               /\ case = [fam |-> "touch", tree |-> e, want |-> Eval(e), typ |-> "b", touched |-> Touched(e)]
+
+\* ---- string literals: escapes denote bytes (\x, octal) or code points (\u, encoded as UTF-8) ----
+UTF8(cp) == IF cp < 128 THEN <<cp>>
+            ELSE IF cp < 2048 THEN <<192 + (cp \div 64), 128 + (cp % 64)>>
+            ELSE <<224 + (cp \div 4096), 128 + ((cp \div 64) % 64), 128 + (cp % 64)>>
+Pieces == {[k |-> "lit", c |-> 97], [k |-> "lit", c |-> 32], [k |-> "n"], [k |-> "t"], [k |-> "bs"], [k |-> "q"],
+           [k |-> "hex", c |-> 65], [k |-> "hex", c |-> 233], [k |-> "hex", c |-> 255], [k |-> "oct", c |-> 65], [k |-> "oct", c |-> 233],
+           [k |-> "u", c |-> 65], [k |-> "u", c |-> 233], [k |-> "u", c |-> 8364]}
+Bytes(p) == CASE p.k = "lit" -> <<p.c>> [] p.k = "n" -> <<10>> [] p.k = "t" -> <<9>> [] p.k = "bs" -> <<92>>
+              [] p.k = "q" -> <<0>>      \* the quote character of the literal's own style: filled in below
+              [] p.k \in {"hex", "oct"} -> <<p.c>> [] p.k = "u" -> UTF8(p.c)
+QuoteByte(style) == IF style = "dq" THEN 34 ELSE 39
+RECURSIVE AllBytes(_, _)
+AllBytes(ps, style) == IF ps = <<>> THEN <<>>
+                       ELSE (IF Head(ps).k = "q" THEN <<QuoteByte(style)>> ELSE Bytes(Head(ps))) \o AllBytes(Tail(ps), style)
+StrLitCase == \E style \in {"dq", "sq"}, a \in Pieces, b \in Pieces, c \in Pieces \cup {[k |-> "none"]} :
+                LET ps == IF c.k = "none" THEN <<a, b>> ELSE <<a, b, c>> IN
+                case = [fam |-> "strlit", style |-> style, pieces |-> ps, want |-> [t |-> "bytes", cp |-> AllBytes(ps, style)]]
+
 \* ---- number literals ----
 NoExp == [has |-> FALSE, v |-> 0]
 Exp(v) == [has |-> TRUE, v |-> v]
@@ -58,6 +86,7 @@ LitCase == \E l \in Lits :
 StrLeaves == {S("a"), S("b")}
 StrLeavesQuick == {S("a")}
 Init == CASE Family = "flat2" -> Flat2 [] Family = "flat3" -> Flat3 [] Family = "tree" -> Tree [] Family = "lit" -> LitCase
+          [] Family = "touch" -> TouchCase [] Family = "strlit" -> StrLitCase
 Next == UNCHANGED case
 Spec == Init /\ [][Next]_case
 
